@@ -19,9 +19,10 @@ TRUSTED = [
     "Coq 8.16.1 kernel (coqc; coqchk in the thorough tier); vm_compute for the witnesses; no axioms (all theorems closed under the global context)",
     "translators gen/gitignore_initial.py (GITIGNORE_INITIAL_CONTENT -> Gen/GitignoreInitial.v) and gen/common_ignore.py (COMMON_IGNORE_PATTERNS -> Gen/CommonIgnore.v); the rendered initial content is also compared with the root .gitignore a real `xvc init` writes",
     "extraction (ExtrOcamlBasic only) + coq/extract/gitignore_driver.ml; this module (scenario runner, observation of which paths a command materialised, canonicalisation of the dated header line)",
-    "reference gitignore semantics (Gitignore/Model.v: ignored/excluded/parse_line/wm/pm) is hand-written from gitignore(5), dir.c and wildmatch.c for the grammar {names, *, ?, **, /anchored, a/b, dir/, !negation, # comments}; validated against git 2.39 `check-ignore` by the differential test; lines with [ ] \\ blanks or control characters are outside the grammar (LUnsup)",
-    "modelled, not verified: file/src/common/gitignore.rs (update_dir_gitignores, update_file_gitignores, make_ignore_handler), the .gitignore phase of file/src/track/mod.rs cmd_track, the rename branch of file/src/mv/mod.rs cmd_move, core/src/util/git.rs build_gitignore + walker build_ignore_patterns; xvc's matcher is imported from Glob/{Match,Pattern}.v and Walker/Model.v (check_str, add_patterns), which C09 ties to the code; the theorems hold for EVERY matcher (Section variables build/chk)",
+    "reference gitignore semantics (Gitignore/Model.v: ignored/excluded/parse_line/lex/wm/pm) is hand-written from gitignore(5), dir.c and wildmatch.c for the grammar {names over all bytes, *, ?, **, /anchored, a/b, dir/, !negation, # comments, backslash escapes, trailing blanks dropped unless escaped}; validated against git 2.39 `check-ignore` by the differential test, with names and patterns over the metacharacter alphabet ([ ] \\ * ? # ! blank tab CR high bytes) and with the lines escape_name produces; lines with an unescaped [ or ], a backslash at the end or before /, a final carriage return, NUL, or `**` glued to other characters are outside the grammar (LUnsup); a UTF-8 byte order mark at the start of a file is not modelled",
+    "modelled, not verified: file/src/common/gitignore.rs (update_dir_gitignores, update_file_gitignores, make_ignore_handler, escape_gitignore_name, paths_ignored_by_git) and core/src/util/git.rs git_ignored_paths (with fixed_em Git's answer is taken to be the reference semantics `ignored` / `ignored_dir` in the state before the write), the .gitignore phase of file/src/track/mod.rs cmd_track, the rename branch of file/src/mv/mod.rs cmd_move, core/src/util/git.rs build_gitignore + walker build_ignore_patterns; xvc's matcher is imported from Glob/{Match,Pattern}.v and Walker/Model.v (check_str, add_patterns), which C09 ties to the code; the theorems hold for EVERY matcher (Section variables build/chk)",
     "abstracted: which directory/file targets a command resolves and which paths it materialises (inputs of the model commands CTrack/CHandler/CMoveRename; observed from the real run), HashMap iteration order (lines of one block are compared as a multiset), the date (a parameter), read_dir order (taken from the disk), the interleaving of the handler thread with the command (rules are built when the thread starts)",
+    "repair switches: fixed_P17 / fixed_nl / fixed_P5 read from the source, fixed_sn / fixed_em read from the source AND probed on the binary (probe_switches: one repository, five commands); the model runs with the probed values, any disagreement or half-applied repair is a correspondence failure",
     "environment: git 2.39.5; no core.excludesFile / info/exclude (private HOME); POSIX O_APPEND",
 ]
 
@@ -80,18 +81,100 @@ def source_flags():
             return ""
     ir = rd("walker/src/ignore_rules.rs")
     p17 = bool(re.search(r"applies\(pattern\)\s*&&\s*glob_match", ir))
+    # 9cb79112 (P35): the Source::Global ignore patterns are consulted before the whitelist patterns
+    m35 = re.search(r"matches!\(pattern\.source,\s*Source::Global\)\s*&&\s*glob_match", ir)
+    mwl = re.search(r"whitelist_patterns\s*=\s*self\.whitelist_patterns\.read", ir)
+    p35 = bool(m35 and mwl and m35.start() < mwl.start())
     gi = rd("file/src/common/gitignore.rs")
     nl = bool(re.search(r"fn\s+append_rule_block", gi)) and "unterminated" in gi
     mv = rd("file/src/mv/mod.rs")
     p5 = "update_file_gitignores" in mv
     # repo-patches/59 (C19): a move whose source is absent rechecks the destination instead of failing in fs::rename
     mv_absent = bool(re.search(r"if\s+!source_path\.exists\(\)", mv))
-    return {"fixed_P17": p17, "fixed_nl": bool(nl), "fixed_P5": p5, "fixed_move_absent": mv_absent}
+    # repo-patches/75: both writers pass the name through escape_gitignore_name
+    n_esc = len(re.findall(r"format!\(\s*\"/\{\}/?\"\s*,\s*escape_gitignore_name\(", gi))
+    n_raw = len(re.findall(r"format!\(\s*\"/\{\}/?\"\s*,\s*[a-z]\s*\)", gi))
+    sn = None if (n_esc and n_raw) or (n_esc + n_raw != 2) else (n_esc == 2 and bool(re.search(r"fn\s+escape_gitignore_name", gi)))
+    # repo-patches/76: the writers ask Git (paths_ignored_by_git -> git check-ignore), the handler loop passes everything but Whitelist
+    asks = len(re.findall(r"=\s*paths_ignored_by_git\(xvc_root,", gi))
+    loop_new = len(re.findall(r"!matches!\(gitignore\.check\(&path\),\s*MatchResult::Whitelist\)", gi))
+    loop_old = len(re.findall(r"[^!]matches!\(gitignore\.check\(&path\),\s*MatchResult::NoMatch\)", gi))
+    git_rs = rd("core/src/util/git.rs")
+    if asks == 0 and loop_new == 0 and loop_old == 2:
+        em = False
+    elif asks == 2 and loop_new == 2 and loop_old == 0 and "check-ignore" in git_rs and "fn git_ignored_paths" in git_rs:
+        em = True
+    else:
+        em = None
+    # repo-patches/72 (C19 P3): copy / move put the content at the cache path of the destination and stop BEFORE any record
+    # changes when it cannot be materialised (the same reading of the source as the model switch of Repo/Ext.v)
+    from . import repoext as X
+    p3 = X.flags_from_source()[5] == "1"
+    return {"fixed_P17": p17, "fixed_nl": bool(nl), "fixed_P5": p5, "fixed_move_absent": mv_absent, "fixed_sn": sn, "fixed_em": em, "fixed_P3": p3, "fixed_P35": p35}
 
 
 def flag_str(fl, **over):
     f = dict(fl); f.update(over)
-    return "%d%d%d" % (f["fixed_P17"], f["fixed_nl"], f["fixed_P5"])
+    return "%d%d%d%d%d%d" % (f["fixed_P17"], f["fixed_nl"], f["fixed_P5"], bool(f["fixed_sn"]), bool(f["fixed_em"]), bool(f.get("fixed_P35")))
+
+
+def probe_switches(chk, xvc, flags):
+    """decides fixed_sn / fixed_em on the binary under test (what the writers do with a name holding `[` and with
+    a name xvc's own matcher wrongly finds ignored) and checks the answer against the reading of the source; a
+    half-applied repair, or a binary that disagrees with the source, is a correspondence failure"""
+    seen = {}
+    try:
+        rp = new_repo(xvc, "c16probe")
+    except Overloaded:
+        return {"skipped": "machine overloaded"}
+    try:
+        for p in ("p/a[1].txt", "a.txt", "d/a.txt", "q[1]/z.txt", "e/k.txt", "x/e2/k.txt", "y/other.txt"):
+            rp.write(p, ("probe %s\n" % p).encode())
+        with open(rp.path(".gitignore"), "ab") as fh:
+            fh.write(b"/e2\n")          # a user line: Git reads it at the root only, xvc's matcher at any depth
+        rs = [rp.xvc("file", "track", "p/a[[]1[]].txt", "a.txt", timeout=300),
+              rp.xvc("file", "track", "q[1]", "e", timeout=300),
+              rp.xvc("file", "track", "d/a.txt", timeout=300),        # xvc's matcher: /a.txt of the root "ignores" d/a.txt
+              rp.xvc("file", "track", "x/e2", timeout=300),           # ... and the user's /e2 "ignores" the directory x/e2
+              rp.xvc("file", "copy", "a.txt", "y/a.txt", timeout=300)]    # ... the same through the ignore handler (y exists: no directory rule)
+        if any(r.timed_out for r in rs):
+            return {"skipped": "machine overloaded"}
+        def lines(rel):
+            b = rp.read(rel) or b""
+            return [l for l in b.split(b"\n") if l and not l.startswith(b"#")]
+        pl, root, dl, xl, yl = lines("p/.gitignore"), lines(".gitignore"), lines("d/.gitignore"), lines("x/.gitignore"), lines("y/.gitignore")
+        seen = {"p": [l.decode() for l in pl], "root": [l.decode() for l in root[-6:]], "d": [l.decode() for l in dl],
+                "x": [l.decode() for l in xl], "y": [l.decode() for l in yl]}
+        sn_file = True if b"/a\\[1\\].txt" in pl else (False if b"/a[1].txt" in pl else None)
+        sn_dir = True if b"/q\\[1\\]/" in root else (False if b"/q[1]/" in root else None)
+        em_track = b"/a.txt" in dl
+        em_dir = b"/e2/" in xl
+        em_handler = b"/a.txt" in yl
+    finally:
+        rp.cleanup()
+    probs = []
+    sn = sn_file if sn_file == sn_dir else None
+    if sn is None:
+        probs.append("escaping probe inconclusive or half-applied: file line %s, directory line %s (%r)" % (sn_file, sn_dir, seen))
+    em = em_track if em_track == em_dir == em_handler else None
+    if em is None:
+        probs.append("Git-decides probe half-applied: track files %s, track directories %s, ignore handler %s (%r)" % (em_track, em_dir, em_handler, seen))
+    for k, v in (("fixed_sn", sn), ("fixed_em", em)):
+        if flags[k] is None:
+            probs.append("%s cannot be read from file/src/common/gitignore.rs / core/src/util/git.rs (the repair is applied in part)" % k)
+        elif v is not None and flags[k] != v:
+            probs.append("%s: the source says %s, the binary behaves as %s" % (k, flags[k], v))
+    for p in probs:
+        chk.fail("correspondence", "M-GITIGNORE repair switches: " + p,
+                 {"theorem_or_correspondence": "probe of the repair switches fixed_sn / fixed_em (Props/C16.v tracked_paths_git_ignored_fixed)", "seen": seen,
+                  "source_flags": {k: flags[k] for k in ("fixed_sn", "fixed_em")}}, name="switches", has_input=False)
+    # the model runs with what the binary does
+    if sn is not None:
+        flags["fixed_sn"] = sn
+    if em is not None:
+        flags["fixed_em"] = em
+    flags["fixed_sn"] = bool(flags["fixed_sn"]); flags["fixed_em"] = bool(flags["fixed_em"])
+    return {"probe_fixed_sn": sn, "probe_fixed_em": em, "seen": seen}
 
 
 # ---------------------------------------------------------------------------------------------------------
@@ -99,6 +182,12 @@ def flag_str(fl, **over):
 # ---------------------------------------------------------------------------------------------------------
 NAMES = ["a", "b", "d", "e", "a.t", "b.t", "ab", "a.dat", "keep.dat"]
 DIRS_R = ["", "d", "e", "d/e", "d/d", "ab"]
+# names over the metacharacter alphabet (and near misses of them), patterns that escape them or fail to
+META_NAMES = ["a[1]", "a1", "a[1", "q\\w", "qw", "q\\", "c ", "c", "c  ", " c", "s*r", "sxr", "s?r", "#h", "!k", "h", "k", "t\t", "]x[", "x",
+              "\u00e9t\u00e9", "a b", "cr\r", "cr\rx", "cr", "\x01", "\x7f", "**", "*", "?", "\\"]
+META_PATTERNS = ["a\\[1\\]", "a[1]", "a\\[1", "q\\\\w", "q\\w", "c\\ ", "c ", "c  ", "c \\ ", "s\\*r", "s*r", "s\\?r", "s?r", "\\#h", "#h", "\\!k", "!k", "/#h", "/!k",
+                 "t\t", "\\]x\\[", "\u00e9t\u00e9", "\u00e9?\u00e9", "a b", "a\\ b", "cr?", "cr\rx", "\\a", "\\**", "\\*\\*", "\\*", "\\?", "\\\\", " c", "\x01", "\x7f", "* ", "c\\",
+                 "a\\/b", "d/c\\ ", "/d/a\\[1\\]", "d/\\#h/"]
 
 
 def gen_pattern(rng):
@@ -129,31 +218,102 @@ def gen_pattern(rng):
     return body
 
 
-def gen_ref_group(rng):
+def gen_ref_group(rng, meta=False):
+    """meta: names and patterns over the metacharacter alphabet"""
     files = {}
     for d in rng.sample(DIRS_R, rng.randint(1, 3)):
         lines = [gen_pattern(rng) for _ in range(rng.randint(1, 4))]
+        if meta:
+            lines = []
+            for _ in range(rng.randint(1, 4)):
+                l = rng.choice(META_PATTERNS)
+                k = rng.random()
+                if k < 0.15:
+                    l = "!" + l
+                elif k < 0.3:
+                    l = "/" + l
+                elif k < 0.4:
+                    l = l + "/"
+                lines.append(l)
         txt = "\n".join(lines) + ("\n" if rng.random() < 0.85 else "")
         files[d] = txt
     paths = set()
     for _ in range(rng.randint(6, 12)):
         depth = rng.choice([1, 1, 2, 2, 3, 4])
-        comps = [rng.choice(["d", "e", "ab", "a"]) for _ in range(depth - 1)] + [rng.choice(NAMES)]
+        comps = [rng.choice(["d", "e", "ab", "a"]) for _ in range(depth - 1)] + [rng.choice(META_NAMES if meta and rng.random() < 0.8 else NAMES)]
+        if meta and depth > 1 and rng.random() < 0.2:
+            comps[rng.randrange(depth - 1)] = rng.choice(["#h", "c ", "a[1]"])
         paths.add("/".join(comps))
     # prefix-free: a path that is a directory of another one becomes a directory
     paths = sorted(paths)
     fpaths = [p for p in paths if not any(q.startswith(p + "/") for q in paths)
               and not any(d == p or d.startswith(p + "/") for d in files)]
-    return {"files": files, "paths": fpaths}
+    return {"files": files, "paths": fpaths, "kind": "meta" if meta else "plain"}
+
+
+ESC_ALPHABET = ["a", "b", ".", "[", "]", "\\", "*", "?", " ", "#", "!", "\t", "\r", "\u00e9", "1", "-", "^", "{", "}", "~", "\x01", "\x7f", "\n"]
+
+
+def gen_escape_groups(chk, model, n):
+    """one .gitignore holding the line(s) xvc writes for a name drawn from the metacharacter alphabet (escape_name of
+    the model, through the driver), asked about the name itself and about near misses of it"""
+    rng = chk.rng
+    names = []
+    for _ in range(n):
+        k = rng.randint(1, 5)
+        nm = "".join(rng.choice(ESC_ALPHABET) for _ in range(k))
+        if nm in (".", ".."):
+            nm = "a" + nm
+        names.append(nm)
+    names += ["a[1].txt", "c ", "q\\w", "s*r", "#h", "!k", "**", "\\", " ", "cr\r", "l\nf", "[", "]", "?", "a  "][:max(0, min(15, n))]
+    rc, out = C.run_lines(model, ["esc " + hx(nm) for nm in names])
+    groups = []
+    for nm, o in zip(names, out):
+        f = o.split()
+        if not f or not re.fullmatch(r"[0-9a-f]+", f[0]):
+            chk.fail("correspondence", "the model driver cannot escape %r: %r" % (nm, o), {"theorem_or_correspondence": "gitignoremodel esc"},
+                     name="escdrv", has_input=False)
+            continue
+        esc = bytes.fromhex(f[0]).decode("utf-8", "surrogateescape")
+        strict = "\n" not in nm and not nm.endswith("\r")
+        as_dir = rng.random() < 0.3
+        d = rng.choice(["", "d", "d/e"])
+        line = "/" + esc + ("/" if as_dir else "")
+        # near misses: the name with one character dropped / doubled / replaced, the raw reading of the escaped text
+        near = set()
+        for i in range(len(nm)):
+            near.add(nm[:i] + nm[i + 1:]); near.add(nm[:i] + "x" + nm[i + 1:]); near.add(nm[:i] + nm[i] + nm[i:])
+        near |= {nm.strip(" "), nm + "x", "x" + nm, esc}
+        near = {x for x in near if x and x != nm and "/" not in x and "\0" not in x and x not in (".", "..", "zz") and len(x.encode()) < 200}
+        near = rng.sample(sorted(near), min(len(near), 5))
+        pre = (d + "/") if d else ""
+        g = {"kind": "escape", "name": nm, "files": {d: line + "\n"}, "paths": [pre + nm] + [pre + x for x in near], "as_dir": as_dir,
+             "expect": {pre + nm: True}}
+        if strict:
+            for x in near:
+                g["expect"][pre + x] = False
+        # one level deeper the anchored line must not match (a `?` written for a line break can match the directory zz itself)
+        if not as_dir:
+            g["paths"].append(pre + "zz/" + nm)
+            if strict:
+                g["expect"][pre + "zz/" + nm] = False
+        groups.append(g)
+    return groups
 
 
 def ref_vs_git(chk, model, n_groups, groups=None):
     base = C.scratch_dir("c16ref")
     env = dict(C.BASE_ENV)
     env.update({"HOME": base, "XDG_CONFIG_HOME": os.path.join(base, ".config"), "GIT_CONFIG_NOSYSTEM": "1"})
-    groups = groups or [gen_ref_group(chk.rng) for _ in range(n_groups)]
-    dist = {"groups": len(groups), "cases": 0, "ignored": 0, "dir_cases": 0, "negation_lines": 0, "nested_files": 0, "unterminated": 0}
+    if groups is None:
+        groups = [gen_ref_group(chk.rng) for _ in range(n_groups)]
+        groups += [gen_ref_group(chk.rng, meta=True) for _ in range(n_groups // 2)]
+        groups += gen_escape_groups(chk, model, n_groups // 2)
+    dist = {"groups": len(groups), "cases": 0, "ignored": 0, "dir_cases": 0, "negation_lines": 0, "nested_files": 0, "unterminated": 0,
+            "meta_groups": sum(1 for g in groups if g.get("kind") == "meta"), "escape_groups": sum(1 for g in groups if g.get("kind") == "escape"),
+            "escape_expectations": 0, "backslash_lines": 0}
     lines, meta = [], []
+    bad_esc = [0]
     try:
         def one(ig):
             i, g = ig
@@ -168,15 +328,18 @@ def ref_vs_git(chk, model, n_groups, groups=None):
                 open(os.path.join(root, p), "w").close()
             for d, txt in g["files"].items():
                 os.makedirs(os.path.join(root, d), exist_ok=True)
-                with open(os.path.join(root, d, ".gitignore"), "w") as fh:
-                    fh.write(txt)
+                with open(os.path.join(root, d, ".gitignore"), "wb") as fh:
+                    fh.write(txt.encode("utf-8", "surrogateescape"))
             dirs = sorted({"/".join(p.split("/")[:k]) for p in g["paths"] for k in range(1, len(p.split("/")))})
             if g.get("as_dir"):
                 dirs = sorted(set(dirs) | set(g["paths"]))
             q = [p for p in g["paths"] if p not in dirs] + dirs      # a directory is asked for WITHOUT a final slash (Git sees its type on disk)
-            pr = subprocess.run(["git", "check-ignore", "--stdin"], cwd=root, env=env, input="\n".join(q) + "\n",
-                                text=True, stdout=subprocess.PIPE, stderr=subprocess.PIPE)
-            got = set(pr.stdout.split("\n"))
+            # bytes, not text: the universal-newline reading of text mode would turn a carriage return of a name into a line feed
+            pr = subprocess.run(["git", "check-ignore", "-z", "--stdin"], cwd=root, env=env, input=("\0".join(q) + "\0").encode("utf-8", "surrogateescape"),
+                                stdout=subprocess.PIPE, stderr=subprocess.PIPE)
+            if pr.returncode not in (0, 1):
+                raise RuntimeError("git check-ignore failed: %s" % pr.stderr[-300:])
+            got = set(pr.stdout.decode("utf-8", "surrogateescape").split("\0"))
             return [(p + ("/" if p in dirs else ""), p in got) for p in q]
         with ThreadPoolExecutor(8) as ex:
             res = list(ex.map(one, enumerate(groups)))
@@ -185,6 +348,17 @@ def ref_vs_git(chk, model, n_groups, groups=None):
             dist["negation_lines"] += sum(l.startswith("!") for t in g["files"].values() for l in t.split("\n"))
             dist["nested_files"] += sum(1 for d in g["files"] if d)
             dist["unterminated"] += sum(1 for t in g["files"].values() if t and not t.endswith("\n"))
+            dist["backslash_lines"] += sum("\\" in l for t in g["files"].values() for l in t.split("\n"))
+            # the lines escape_name wrote: Git itself must ignore the name, and (strict names) nothing else
+            for p, want in (g.get("expect") or {}).items():
+                dist["escape_expectations"] += 1
+                got_p = dict((x.rstrip("/"), y) for x, y in r).get(p)
+                if got_p != want and bad_esc[0] < 3:
+                    bad_esc[0] += 1
+                    chk.fail("correspondence", "the line escape_name wrote for %r (%r): `git check-ignore` says ignored=%s for %r, expected %s" % (
+                        g.get("name"), g["files"], got_p, p, want),
+                        {"theorem_or_correspondence": "Gitignore.Model.escape_name vs git check-ignore (escape_matches_exactly)", "files": g["files"], "path": p,
+                         "git": got_p, "expected": want}, name="escgit", has_input=False)
             for p, ign in r:
                 isdir = p.endswith("/")
                 lines.append("ref %s %s %s" % (fs, ppath(p), "d" if isdir else "f"))
@@ -218,6 +392,16 @@ def ref_vs_git(chk, model, n_groups, groups=None):
 FILE_POOL = ["a.txt", "b.bin", "keep.dat", "x.dat", "d/a.txt", "d/b.bin", "d/keep.dat", "d/e/a.txt", "d/e/c.bin", "d/e/f/g.txt",
              "sub/data.bin", "sub/z.txt", "other/data.bin", "other/a.txt", "x/d/b.txt", "x/d/a.txt", "m/n.dat", "m/e/c.bin"]
 SPECIAL_FILES = ["m/a[1].txt", "m/c ", "m/q\\w", "m/s*r", "m/#h", "m/!k"]
+# with the escaping of repo-patches/75 in the tree: every kind of name the writer has to get right, also directories
+SPECIAL_FILES_FIXED = SPECIAL_FILES + [":top.txt", "m/]x[", "m/t\t", "m/cr\r", "m/l\nf", "m/ a  b  ", "m/**", "m/?", "m/\\", "m/\u00e9 [", "m/w[1]/in.txt", "m/sp /in.txt",
+                                       "m/#d/in.txt", "m/b\\s/in.txt"]
+SPECIAL_DIR_TARGETS = ["m/w[1]", "m/sp ", "m/#d", "m/b\\s"]
+SPECIAL_DESTS = ["w[2]/", "sp2 /", "m/w[1]/n", "o]/p[/"]
+
+
+def glob_escape(p):
+    """the path as a literal xvc target (targets are globs)"""
+    return "".join("[" + ch + "]" if ch in "*?[]" else ("\\\\" if ch == "\\" else ch) for ch in p)
 USER_LINES = ["*.bin", "*.dat", "!keep.dat", "data.bin", "/a.txt", "a.txt", "d/", "/d/", "e/", "d/e/", "**/a.txt", "d/**", "!a.txt",
               "!*.txt", "*.txt", "# note", "", "/d/e/", "!d/", "b.*", "?.txt", "x/**/b.txt", "!/d/a.txt", "/d/a.txt", "c.bin", "z.txt",
               "!data.bin", "/x/", "sub/", "*.t?t", "keep.dat"]
@@ -228,18 +412,21 @@ TRACK_TARGETS = ["a.txt", "b.bin", "keep.dat", "x.dat", "d/a.txt", "d/b.bin", "d
 METHODS = ["copy", "hardlink", "symlink"]
 
 
-def gen_scenario(rng, idx):
+def gen_scenario(rng, idx, flags=None):
+    flags = flags or {}
+    sn = bool(flags.get("fixed_sn"))
     sc = {"idx": idx, "files": {}, "gitignores": [], "cmds": []}
     # a quarter of the histories run with git.auto_commit=false, git.auto_stage=true: xvc then stages what it
     # would have committed, and the index shows directly whether the cache or a data file got in
     if rng.random() < 0.25:
         sc["stage_only"] = True
     pool = list(FILE_POOL)
-    special = rng.random() < 0.08
+    # names outside the plain ones: a known class without repo-patches/75 (a few histories), ordinary inputs with it
+    special = rng.random() < (0.3 if sn else 0.08)
     for p in rng.sample(pool, rng.randint(4, 9)):
         sc["files"][p] = hx("content of %s %d\n" % (p, rng.randint(0, 3)))
     if special:
-        for p in rng.sample(SPECIAL_FILES, 3):
+        for p in rng.sample(SPECIAL_FILES_FIXED if sn else SPECIAL_FILES, 5 if sn else 3):
             sc["files"][p] = hx("special %d\n" % rng.randint(0, 9))
     dirs_present = sorted({os.path.dirname(p) for p in sc["files"]})
     k = rng.random()
@@ -264,33 +451,48 @@ def gen_scenario(rng, idx):
                 if r2 < 0.5:
                     ts.append(rng.choice(present))
                 elif r2 < 0.6 and tracked_guess:
-                    ts.append(rng.choice(tracked_guess))        # the same path again
+                    ts.append(glob_escape(rng.choice(tracked_guess)))        # the same path again
                 else:
                     ts.append(rng.choice(TRACK_TARGETS))
             if special and rng.random() < 0.7:
-                ts.append("m")
+                if sn:
+                    # the files themselves (each gets its own line), a directory with such a name, or the whole of m
+                    k2 = rng.random()
+                    sp = [p for p in present if p not in FILE_POOL]
+                    if k2 < 0.4:
+                        ts.append("m/*")
+                    elif k2 < 0.65 and sp:
+                        ts += [glob_escape(p) for p in rng.sample(sp, min(len(sp), 2))]
+                    elif k2 < 0.85:
+                        cand = [d for d in SPECIAL_DIR_TARGETS if any(p.startswith(d + "/") for p in present)]
+                        ts.append(rng.choice(cand) if cand else "m")
+                    else:
+                        ts.append("m")
+                else:
+                    ts.append("m")
             argv = ["file", "track"] + (["--recheck-method", rng.choice(METHODS)] if rng.random() < 0.4 else []) + ts
             for t in ts:
                 t0 = t.rstrip("/")
-                tracked_guess += [p for p in present if p == t0 or p.startswith(t0 + "/")]
+                tracked_guess += [p for p in present if p == t0 or p.startswith(t0 + "/") or (t0 == "m/*" and p.startswith("m/") and p.count("/") == 1)
+                                  or glob_escape(p) == t0]
         elif k < 0.6:
             for p in rng.sample(tracked_guess, min(len(tracked_guess), rng.randint(0, 2))):
                 pre.append(["rm", p])
             argv = ["file", "recheck"] + (["--recheck-method", rng.choice(METHODS)] if rng.random() < 0.5 else []) \
-                + (["--force"] if rng.random() < 0.3 else []) + ([rng.choice(tracked_guess)] if rng.random() < 0.5 else [])
+                + (["--force"] if rng.random() < 0.3 else []) + ([glob_escape(rng.choice(tracked_guess))] if rng.random() < 0.5 else [])
         elif k < 0.75:
             src = rng.choice(tracked_guess)
             ext = os.path.splitext(src)[1]      # another extension is another cache address (not this property)
-            dst = rng.choice(["o/", "o/p/n", "d/c2", "c3", "q/r/", "d/e/k", "x/d/c4"])
+            dst = rng.choice(["o/", "o/p/n", "d/c2", "c3", "q/r/", "d/e/k", "x/d/c4"] + (SPECIAL_DESTS if special and sn else []))
             dst += "" if dst.endswith("/") else ext
-            argv = ["file", "copy"] + (["--recheck-method", rng.choice(METHODS)] if rng.random() < 0.3 else []) + [src, dst]
+            argv = ["file", "copy"] + (["--recheck-method", rng.choice(METHODS)] if rng.random() < 0.3 else []) + [glob_escape(src), dst]
             tracked_guess.append(dst + src if dst.endswith("/") else dst)
         elif k < 0.92:
             src = rng.choice(tracked_guess)
             ext = os.path.splitext(src)[1]
-            dst = rng.choice(["v", "q/", "d/e/m", "w/z/v2", "d/v3", "x/d/v4"])
+            dst = rng.choice(["v", "q/", "d/e/m", "w/z/v2", "d/v3", "x/d/v4"] + (SPECIAL_DESTS if special and sn else []))
             dst += "" if dst.endswith("/") else ext
-            argv = ["file", "move"] + (["--recheck-method", rng.choice(METHODS)] if rng.random() < 0.25 else []) + [src, dst]
+            argv = ["file", "move"] + (["--recheck-method", rng.choice(METHODS)] if rng.random() < 0.25 else []) + [glob_escape(src), dst]
             tracked_guess = [p for p in tracked_guess if p != src] + [dst + src if dst.endswith("/") else dst]
         else:
             # bring round trip: storage, send, drop the cache and a workspace file, bring
@@ -338,21 +540,41 @@ def snapshot(root):
     return gis, dirs, ident
 
 
+class _ListResult:
+    def __init__(self, out, failed, timed_out):
+        self.out, self.failed, self.timed_out = out, failed, timed_out
+
+
 def tracked_paths(rp):
-    r = rp.xvc("file", "list", "--format", "{{rcd8}}|{{name}}", "--no-summary")
+    # bytes, not the text mode of XvcRepo.xvc: its universal-newline reading would drop the carriage return that ends a name
+    e = dict(C.BASE_ENV); e.update(rp.env)
+    try:
+        p = subprocess.run([rp.xvc_bin, "file", "list", "--format", "{{rcd8}}|{{name}}", "--no-summary"], cwd=rp.root, env=e,
+                           stdout=subprocess.PIPE, stderr=subprocess.PIPE, timeout=300)
+        r = _ListResult(p.stdout.decode("utf-8", "surrogateescape"), p.returncode != 0, False)
+    except subprocess.TimeoutExpired:
+        r = _ListResult("", True, True)
     out = []
+    cur = None
     for l in r.out.split("\n"):
-        if "|" not in l:
-            continue
-        d, n = l.split("|", 1)
-        if d.strip() and n:
-            out.append(n)
+        if re.match(r"^[0-9a-f ]{8}\|", l):
+            d, n = l.split("|", 1)
+            cur = n if d.strip() and n else None
+            if cur is not None:
+                out.append(cur)
+        elif cur is not None and l and not l.startswith("Total #"):
+            # a name with a line break goes on in the next line
+            out[-1] = cur = cur + "\n" + l
+        elif "|" in l and cur is None:
+            d, n = l.split("|", 1)
+            if d.strip() and n:
+                out.append(n)
     return sorted(set(out)), r
 
 
 def target_matches(t, p):
     t0 = t.rstrip("/")
-    if p == t0 or p.startswith(t0 + "/"):
+    if p == t0 or p.startswith(t0 + "/") or glob_escape(p) == t0:
         return True
     if any(ch in t0 for ch in "*?["):
         tc, pc = t0.split("/"), p.split("/")
@@ -440,7 +662,9 @@ def run_scenario(xvc, sc, flags, model):
                 return obs
             gis1, dirs1, id1 = snapshot(rp.root)
             kind = argv[1] if argv[0] == "file" else argv[0]
-            o = {"ci": ci, "kind": kind, "argv": cmd["argv"], "failed": bool(r.failed), "panicked": bool(r.panicked),
+            # .gitignore files that are symbolic links now (xvc tracked the file itself and rechecked it as a link): Git does not read them
+            gi_links = sorted(d for d in gis1 if os.path.islink(os.path.join(rp.root, d, ".gitignore") if d else os.path.join(rp.root, ".gitignore")))
+            o = {"ci": ci, "kind": kind, "argv": cmd["argv"], "failed": bool(r.failed), "panicked": bool(r.panicked), "gi_links": gi_links,
                  "stderr": (r.err or "")[-400:], "prefix_violations": [], "not_ignored": [], "staged": [], "tracked": [],
                  "gis0": {k: (v.hex() if v is not None else None) for k, v in gis0.items()},
                  "gis1": {k: (v.hex() if v is not None else None) for k, v in gis1.items()}, "dirs1": dirs1}
@@ -457,20 +681,29 @@ def run_scenario(xvc, sc, flags, model):
                 o["tracked"] = tracked
                 o["absent"] = [q for q in tracked if not os.path.lexists(rp.path(q))]
                 if tracked:
+                    # Git reads the input as pathspecs: `./` keeps a leading colon literal; --no-index because a name like `**` is
+                    # also matched as a glob against the index (m/.gitignore is in it) and would then count as tracked by Git --
+                    # what IS in the index is looked at below (ls-files --cached).  bytes: text mode would read a carriage
+                    # return of a name as a line feed
                     pr = subprocess.run(
-                        ["git", "-c", "core.quotepath=off", "check-ignore", "--stdin", "-z"], cwd=rp.root, env=dict(C.BASE_ENV, **rp.env),
-                        input="\0".join(tracked) + "\0", text=True, stdout=subprocess.PIPE, stderr=subprocess.PIPE)
-                    ign = set(x for x in pr.stdout.split("\0") if x)
+                        ["git", "-c", "core.quotepath=off", "check-ignore", "--no-index", "--stdin", "-z"], cwd=rp.root, env=dict(C.BASE_ENV, **rp.env),
+                        input=("".join("./" + q + "\0" for q in tracked)).encode("utf-8", "surrogateescape"), stdout=subprocess.PIPE, stderr=subprocess.PIPE)
+                    if pr.returncode not in (0, 1):
+                        raise RuntimeError("git check-ignore failed: %s" % pr.stderr[-300:])
+                    ign = set(x[2:] for x in pr.stdout.decode("utf-8", "surrogateescape").split("\0") if x)
                     o["not_ignored"] = [p for p in tracked if p not in ign]
                 pa = subprocess.run(["git", "-c", "core.quotepath=off", "add", "-A", "-n"], cwd=rp.root, env=dict(C.BASE_ENV, **rp.env),
-                                    text=True, stdout=subprocess.PIPE, stderr=subprocess.PIPE)
-                staged = [m.group(1) for m in re.finditer(r"^add '(.*)'$", pa.stdout, re.M)]
+                                    stdout=subprocess.PIPE, stderr=subprocess.PIPE)
+                pa_out = pa.stdout.decode("utf-8", "surrogateescape")
+                staged = [m.group(1) for m in re.finditer(r"^add '(.*)'$", pa_out, re.M)]
+                # (a name with a line break spans two lines of this listing)
+                staged += [q for q in tracked if "\n" in q and ("add '%s'" % q) in pa_out]
                 ts = set(tracked)
                 o["staged"] = [p for p in staged if p in ts or any(p.startswith(".xvc/%s/" % c) or p == ".xvc/" + c for c in XVC_CACHE_DIRS)]
                 # ... and what IS in the index after the command (xvc stages or commits by itself)
                 li = subprocess.run(["git", "-c", "core.quotepath=off", "ls-files", "--cached", "-z"], cwd=rp.root, env=dict(C.BASE_ENV, **rp.env),
-                                    text=True, stdout=subprocess.PIPE, stderr=subprocess.PIPE)
-                for p in (x for x in li.stdout.split("\0") if x):
+                                    stdout=subprocess.PIPE, stderr=subprocess.PIPE)
+                for p in (x for x in li.stdout.decode("utf-8", "surrogateescape").split("\0") if x):
                     if (p in ts or any(p.startswith(".xvc/%s/" % c) for c in XVC_CACHE_DIRS)) and p not in o["staged"]:
                         o["staged"].append(p)
                 # what the command did, for the model: directory targets, file targets, materialised paths
@@ -480,8 +713,8 @@ def run_scenario(xvc, sc, flags, model):
                 inos0 = {i[0]: p for p, i in id0.items()}
                 if kind == "track":
                     targs = [a for a in argv[2:] if not a.startswith("--") and a not in METHODS]
-                    dts = [t.rstrip("/") for t in targs if os.path.isdir(rp.path(t)) and t.strip("/") and not any(ch in t for ch in "*?[")
-                           and (t.rstrip("/") in dirs0)]
+                    # (cmd_track takes a target that IS a directory, read literally, as a directory target)
+                    dts = [t.rstrip("/") for t in targs if os.path.isdir(rp.path(t)) and t.strip("/") and (t.rstrip("/") in dirs0)]
                     fts = sorted(p for p in tracked if p in regular0 and any(target_matches(t, p) for t in targs))
                     stages.append("T:%s:%s" % (lst([ppath(d) for d in dts]), lst([ppath(f) for f in fts])))
                 renamed = []
@@ -603,14 +836,24 @@ def nested_above(model, gis0, path):
     return any(v.get("root") and not v.get("here") for v in res.values())
 
 
+def symlinked_gitignore_above(o, path):
+    """the .gitignore of the path's directory or of a directory above it is a symbolic link after the command (or the
+    path is such a .gitignore): Git does not read a linked .gitignore, whatever it contains"""
+    comps = path.split("/")
+    dirs_above = ["/".join(comps[:k]) for k in range(len(comps))]
+    return any(d in dirs_above for d in o.get("gi_links", []))
+
+
 def classify(model, flags, o, path, mo, history):
     """class label of `path` (tracked, not ignored by Git after command o), decided from the failing command,
     the .gitignore files before it and the model's class predicates evaluated on exactly that input"""
+    if symlinked_gitignore_above(o, path):
+        return "gitignore-symlinked"
     if mo is None:
         return None
     bits = mo["bits"].get(path)
-    if bits is None and history.get(("born_in_failure", path)):
-        return "record-left-by-failed-command"
+    if bits is None and history.get(("born_in_failure", path)) and not flags.get("fixed_P3"):
+        return "record-left-by-failed-command"      # (with the repair of P3 in the tree the class is empty: nothing is suppressed)
     if bits is None:
         # not handled by this command: ignored before, not after?
         prev = history.get(path)
@@ -688,7 +931,14 @@ def judge(chk, model, flags, sc, obs, dist, reported, corpus_name=None, quiet=Fa
             chk.sample({"command": " ".join(o["argv"]), "appended": {(d or ".") + "/.gitignore": b.decode("utf-8", "replace") for d, b in appended.items()},
                         "tracked": o["tracked"], "not_ignored": o["not_ignored"]})
         # model comparison: appended bytes
-        if mo is not None and mo["ok"] and not o["failed"]:
+        if o.get("gi_links"):
+            # xvc reads and appends through the link, Git does not read the file at all: outside the model (finding gitignore-symlinked)
+            dist["symlinked_gitignore_not_compared"] = dist.get("symlinked_gitignore_not_compared", 0) + 1
+        elif mo is not None and mo["ok"] and not o["failed"] and flags["fixed_em"] and mo["extra"].get("sup", "1") != "1":
+            # with repo-patches/76 the lines depend on what Git ignores in the state before the command; a line of that
+            # state outside the grammar of the reference semantics leaves the model without a prediction
+            dist["unsupported_state_not_compared"] = dist.get("unsupported_state_not_compared", 0) + 1
+        elif mo is not None and mo["ok"] and not o["failed"]:
             pred = {}
             for d, new in mo["files"].items():
                 old = bytes.fromhex(o["gis0"].get(d) or "")
@@ -842,7 +1092,7 @@ def scenarios(chk, xvc, model, flags, replay=None):
     else:
         items += load_corpus()
         for i in range(n):
-            items.append((None, {"input": gen_scenario(chk.rng, i)}))
+            items.append((None, {"input": gen_scenario(chk.rng, i, flags)}))
     dist = {"scenarios": len(items), "corpus": sum(1 for n_, _ in items if n_), "commands": {}, "failed_commands": 0, "commands_appending": 0,
             "tracked_paths_checked": 0, "model_agrees": 0, "model_differs": 0, "ref_differs": 0, "classes": {},
             "user_gitignores": 0, "unterminated_user_files": 0, "special_name_scenarios": 0}
@@ -850,7 +1100,7 @@ def scenarios(chk, xvc, model, flags, replay=None):
         sc = it["input"]
         dist["user_gitignores"] += len(sc.get("gitignores", []))
         dist["unterminated_user_files"] += sum(1 for g in sc.get("gitignores", []) if g["content"] and not bytes.fromhex(g["content"]).endswith(b"\n"))
-        dist["special_name_scenarios"] += any(p in sc["files"] for p in SPECIAL_FILES)
+        dist["special_name_scenarios"] += any(p in sc["files"] for p in SPECIAL_FILES_FIXED)
     with ThreadPoolExecutor(10) as ex:
         results = list(ex.map(lambda it: run_scenario(xvc, it[1]["input"], flags, model), items))
     reported = {"n": 0, "corr": 0, "by_class": {}}
@@ -870,8 +1120,10 @@ def scenarios(chk, xvc, model, flags, replay=None):
 
 
 def flags_fix(flags, klass):
-    return {"move-rename-destination": flags["fixed_P5"], "engine-mismatch-nonlocal": flags["fixed_P17"],
-            "unterminated-last-line": flags["fixed_nl"]}.get(klass, False)
+    return {"move-rename-destination": flags["fixed_P5"], "engine-mismatch-nonlocal": flags["fixed_P17"] or flags["fixed_em"],
+            "unterminated-last-line": flags["fixed_nl"], "special-name": flags["fixed_sn"],
+            "engine-mismatch-anchored-floats": flags["fixed_em"], "engine-mismatch-nested-matches-above": flags["fixed_em"],
+            "record-left-by-failed-command": flags.get("fixed_P3", False)}.get(klass, False)
 
 
 def init_content_check(chk, xvc, model):
@@ -900,12 +1152,12 @@ def run(chk, replay=None):
                        "Histories: one command of a generated history on the real binary (tree, user .gitignore files from the grammar incl. covering / whitelisting / unterminated ones, "
                        "2-5 commands of track / recheck / copy / move / bring with repeated paths), judged by the three oracles and compared with the model's predicted appended lines; "
                        "non-trivial = the command is one of the five kinds, did not panic, and at least one tracked path was checked; distinct by (scenario, command index)")
-    chk.assumptions += ["no core.excludesFile and no .git/info/exclude rules (private HOME)", "tracked paths are not in the Git index (git check-ignore reports index entries as not ignored)",
+    chk.assumptions += ["no core.excludesFile and no .git/info/exclude rules (private HOME)", "the rules are asked with `git check-ignore --no-index` (paths as ./path: no pathspec magic, no glob match of a name like ** against the index); whether a tracked path or the cache IS in the index is read with `git ls-files --cached` and `git add -A -n`",
                         "user .gitignore lines of the histories come from the grammar of Gitignore.Model.parse_line"]
     notes = (run_gen("gitignore_initial") or []) + (run_gen("common_ignore") or [])
     chk.cov["translator_notes"] = [str(x) for x in notes]
     flags = source_flags()
-    chk.cov["source_flags"] = flags
+    chk.cov["source_flags"] = dict(flags)
     a = chk.proof()
     model = None
     try:
@@ -920,6 +1172,15 @@ def run(chk, replay=None):
         chk.cov["distribution"] = dist
         return
     dist["init"] = init_content_check(chk, xvc, model)
+    dist["switches"] = probe_switches(chk, xvc, flags)
+    chk.cov["repairs_in_tree"] = {k: flags[k] for k in ("fixed_P17", "fixed_P35", "fixed_nl", "fixed_P5", "fixed_sn", "fixed_em")}
+    both = flags["fixed_sn"] and flags["fixed_em"]
+    chk.cov["theorems_for_this_tree"] = (
+        "tracked_paths_git_ignored_fixed / tracked_paths_git_ignored_history_fixed (every valid name, whatever xvc's own matcher says; the only class left is user-whitelist, P26), "
+        "special_name_class_empty_when_fixed, engine_mismatch_class_empty_when_fixed, escape_matches_exactly, escape_ignores_name" if both else
+        "tracked_paths_git_ignored / _history with fixed_sn=%s fixed_em=%s (outside %s)" % (
+            flags["fixed_sn"], flags["fixed_em"],
+            ", ".join(["K_user_whitelist"] + ([] if flags["fixed_em"] else ["K_engine_mismatch"]) + ([] if flags["fixed_sn"] else ["K_special_name"]))))
     if replay and "files" in replay and "path" in replay and not (replay.get("input") or replay.get("scenario")):
         # a reference-semantics replay: the one (files, path) case again
         dist["reference_vs_git"] = ref_vs_git(chk, model, 1, groups=[{"files": replay["files"], "paths": [replay["path"].rstrip("/")],
